@@ -1,6 +1,7 @@
 """Nullness dataflow: must-facts ('nn', path) / ('null', path) over access paths, refined on branch
 edges, with infeasible-edge pruning.  Used by GUARD (scenario analysis for C16) and NULLFLOW."""
 from . import expr as X
+from .facts import walk
 from . import flow
 from .models import DEREFS, ALLOCATORS, MESSAGE_FUNCS, PURE_LIBC
 
@@ -368,4 +369,43 @@ def scenario(fn, i, summ, assume_others_nonnull=True):
             res.returns.append((n, val))
 
     flow.forward(cfg, frozenset(seed), transfer, refine=refine, visit=visit)
+    return res
+
+
+def fatal_guarded_params(prog, fatal=("libast_fatal_error",)):
+    """{(function name, param index)} such that calling the function with NULL for that pointer parameter reaches the
+    fatal-error call at runtime level >= 1 (an ASSERT-style guard, recognised by what the branch does, not by macro name),
+    directly or by handing the parameter on unchanged to such a parameter of a callee."""
+    direct = set()
+    soft = set()
+    passes = {}
+    for f in prog.all_functions():
+        pp = {"d%d" % p["d"]: i for i, p in enumerate(f.params) if p.get("tp")}
+        if not pp:
+            continue
+        for x in walk(f.body):
+            if x.get("k") == "if":
+                for fact in X.implied(x["cond"], True):
+                    if fact[0] == "null" and fact[1] in pp:
+                        if any(X.callee_name(c) in fatal for c in X.calls_in(x["then"])):
+                            direct.add((f.name, pp[fact[1]]))
+                        else:
+                            soft.add((f.name, pp[fact[1]]))
+            if x.get("k") == "call":
+                cn = X.callee_name(x)
+                if cn:
+                    for j, a in enumerate(x["ch"][1:]):
+                        s_ = X.strip(a)
+                        if s_ is not None and s_.get("k") == "ref" and s_.get("rk") == "param" and "d%d" % s_["d"] in pp:
+                            passes.setdefault((f.name, pp["d%d" % s_["d"]]), set()).add((cn, j))
+    res = set(direct)
+    changed = True
+    while changed:
+        changed = False
+        for key, tgts in passes.items():
+            if key in res or key in soft:
+                continue
+            if tgts & res:
+                res.add(key)
+                changed = True
     return res
